@@ -65,7 +65,9 @@ namespace detail
 	// mod
 	GLM_FUNC_QUALIFIER int mod(int x, int y)
 	{
-		return ((x % y) + y) % y;
+		// (x % y) + y overflows for |y| > 2^30; shift the remainder only when its sign differs from the divisor's
+		int const Rem = x % y;
+		return (Rem != 0 && ((Rem < 0) != (y < 0))) ? Rem + y : Rem;
 	}
 
 	// factorial (!12 max, integer only)
